@@ -409,6 +409,9 @@ def option_sets(rng, nodes, be, tier, k):
         o = dict(rename=True)
         if scal:
             o['define'] = [nd['path'] for nd in rng.sample(scal, min(len(scal), rng.randint(1, 4)))]
+            shadowed = [nd['path'] for nd in scal if '.' in nd['path'] and any(m['path'] != nd['path'] and nd['path'].endswith('.' + m['path']) for m in nodes)]
+            if shadowed:
+                o['define'] = rng.sample(shadowed, min(len(shadowed), rng.randint(2, 4)))        # the longer path of a shadowing pair is listed, the shorter is not
             nn = [nd['path'] for nd in scal if nd['value'] is None and nd['path'] not in o['define']]
             if nn and rng.random() < 0.6:
                 o['define'].append(nn[0])
@@ -463,12 +466,27 @@ def option_sets(rng, nodes, be, tier, k):
     return out
 
 
+def gen_shadow_env(rng):
+    """parameters whose NAME is the trailing part of another parameter's path (width / box.width, size.xlen / box.size.xlen; no one-letter names: the Rust reader's own identifiers): option
+    lists (define=, const=) name parameters by their full path, nobody else is meant"""
+    f32 = rng.choice([0.1, 0.2, 1.1, 3.3])
+    big = rng.choice([5000000000, -4000000000, 2 ** 40 + 1])
+    N = lambda path, dt, value, unit=None, shape=None: dict(path=path, dt=dt, shape=shape, value=value, unit=unit, tags=None)
+    nodes = [N('width', 'float32', f32, 'cm'), N('count', 'int64', big), N('name', 'str', 'top level'), N('flag', 'bool', True),
+             N('box.width', 'float', rng.choice([2.5, 0.75]), 'm'), N('box.count', 'int', rng.randint(1, 99)), N('box.name', 'str', 'inner'),
+             N('box.flag', 'bool', False), N('box.size.xlen', 'float', 1.5), N('box.size.num', 'uint16', [1, 2, 3], None, [3]),
+             N('size.xlen', 'int16', -7), N('size.num', 'float32', [0.1, 0.2], None, [2])]
+    return nodes
+
+
 def env_list(tier, seed):
     rng = random.Random(seed * 7919 + 1900 + (0 if tier == 'quick' else 1))
     envs = []
     for i in range(NENV[tier]):
         cover = i < 2 or (tier == 'thorough' and i % 25 == 0)
         envs.append(gen_env(rng, rng.randint(6, 14), cover=cover))
+    for _ in range(1 if tier == 'quick' else 6):
+        envs.append(gen_shadow_env(rng))
     return envs
 
 
